@@ -59,7 +59,7 @@ META = dict(
                              'open_branches_without_mark': 120000,
                              'nodes_sentence': 450000, 'nodes_world': 350000, 'nodes_designation': 450000,
                              'nodes_access': 25000, 'nodes_closure': 55000, 'nodes_quit': 1000, 'nodes_ellipsis': 2500, 'logics': 52}},
-    budget=dict(quick=600, thorough=3600),
+    budget=dict(quick=1500, thorough=7200),
     unit_timeout=dict(quick=400, thorough=2400),
 )
 
